@@ -100,7 +100,11 @@ class SSCChart(BaseChart):
 
         for param in iterator:
             if param.key in BaseSimfile.MULTI_VALUE_PROPERTIES:
-                self[param.key] = ":".join(param.components[1:])
+                self[param.key] = (
+                    ":".join(param.components[1:])
+                    if len(param.components) > 1
+                    else None
+                )
             else:
                 self[param.key] = param.value
             if param.key in ("NOTES", "NOTES2"):
@@ -221,7 +225,11 @@ class SSCSimfile(BaseSimfile):
         for param in parser:
             key = param.key.upper()
             if key in BaseSimfile.MULTI_VALUE_PROPERTIES:
-                value: Optional[str] = ":".join(param.components[1:])
+                value: Optional[str] = (
+                    ":".join(param.components[1:])
+                    if len(param.components) > 1
+                    else None
+                )
             else:
                 value = param.value
             if key == "NOTEDATA":
